@@ -6,7 +6,7 @@ use crate::util::{guarded, Args, Out, Rng};
 use rsdd::builder::bdd::RobddBuilder;
 use rsdd::builder::cache::AllIteTable;
 use rsdd::builder::BottomUpBuilder;
-use rsdd::repr::{BddPtr, DDNNFPtr, VarLabel, VarOrder};
+use rsdd::repr::{BddPtr, Cnf, DDNNFPtr, Literal, VarLabel, VarOrder};
 use serde_json::{json, Value};
 
 /// [0] = true, [1] = false, [compl, var, low_raw, high_raw] otherwise (unfolded: the diagrams are tiny)
@@ -25,6 +25,7 @@ pub fn record(args: &Args) {
     let segments = args.num("segments", 6) as usize;
     let len = args.num("len", 40) as usize;
     let nmax = (args.num("nmax", 3) as usize).clamp(2, 4);
+    let c05 = args.str("mode", "c01") == "c05";
     let mut out = Out::new(&args.str("out", "-"));
     let mut rng = Rng::new(seed);
     let nv = rng.range(2, nmax);
@@ -46,12 +47,28 @@ pub fn record(args: &Args) {
             let h = *rng.pick(&pool);
             let v = rng.below(nv);
             let pol = rng.coin();
-            let op = *rng.pick(&["ite", "ite", "and", "or", "xor", "iff", "cond", "exists", "compose"]);
+            // --mode c05: compilations only (their L1 conjunct is C05's statement); default: the operations of C01
+            let op = if c05 { "cnf" } else { *rng.pick(&["ite", "ite", "and", "or", "xor", "iff", "cond", "exists", "compose"]) };
+            // compile_cnf: the STORED clauses (as Cnf::new normalised them) are logged, literals +-(v+1)
+            let ncl = if rng.chance(1, 12) { 0 } else { rng.range(1, 5) };
+            let clauses: Vec<Vec<Literal>> = (0..ncl)
+                .map(|_| {
+                    let w = if rng.chance(1, 15) { 0 } else { rng.range(1, 3) };
+                    (0..w).map(|_| Literal::new(VarLabel::new_usize(rng.below(nv)), rng.coin())).collect()
+                })
+                .collect();
+            let cnf = Cnf::new(&clauses);
+            let stored: Vec<Vec<i64>> = cnf
+                .clauses()
+                .iter()
+                .map(|c| c.iter().map(|l| if l.polarity() { l.label().value_usize() as i64 + 1 } else { -(l.label().value_usize() as i64 + 1) }).collect())
+                .collect();
             let mut ev = match op {
                 "ite" => json!({"ev": "op", "op": op, "args": [sp(f), sp(g), sp(h)]}),
                 "cond" => json!({"ev": "op", "op": op, "args": [sp(f)], "v": v, "b": pol}),
                 "exists" => json!({"ev": "op", "op": op, "args": [sp(f)], "v": v}),
                 "compose" => json!({"ev": "op", "op": op, "args": [sp(f), sp(g)], "v": v}),
+                "cnf" => json!({"ev": "op", "op": op, "args": [], "cnf": stored}),
                 _ => json!({"ev": "op", "op": op, "args": [sp(f), sp(g)]}),
             };
             let lbl = VarLabel::new_usize(v);
@@ -63,6 +80,7 @@ pub fn record(args: &Args) {
                 "iff" => b.iff(f, g),
                 "cond" => b.condition(f, lbl, pol),
                 "exists" => b.exists(f, lbl),
+                "cnf" => b.compile_cnf(&cnf),
                 _ => b.compose(f, lbl, g),
             });
             match r {
